@@ -2,6 +2,7 @@ import GaleneVerif.Engine.Common
 import GaleneVerif.Engine.Cache
 import GaleneVerif.Engine.PacketMap
 import GaleneVerif.Engine.Codecs
+import GaleneVerif.Engine.Down
 /-
 Line-protocol driver.  usage: driver <engine> < trace
 Trace lines: `# case <id>` starts a fresh case (engine state reset);
@@ -57,7 +58,8 @@ partial def loop (e : EngineDef) (h : IO.FS.Stream) (st : e.σ) (caseId : String
 def engines : List (String × EngineDef) :=
   [ ("cache", Galene.Engine.Cache.engine),
     ("pmap", Galene.Engine.PacketMap.engine),
-    ("codecs", Galene.Engine.Codecs.engine) ]
+    ("codecs", Galene.Engine.Codecs.engine),
+    ("down", Galene.Engine.Down.engine) ]
 
 def main (args : List String) : IO UInt32 := do
   match args with
